@@ -39,12 +39,14 @@ statements about `minimal_image` itself for every valid connected symbol (`Valid
 whose kernel is the coarsest congruence, the result has no proper quotient and is minimal),
 `minimal_image_unique` (any other minimal quotient is isomorphic to it) and `cover_invariance`
 (a symbol and its covers have isomorphic minimal images, hence equal canonical forms).
+Section 9 proves that the Spec's partition-refinement oracle computes the same coarsest
+congruence (`spec_refinement_correct`, `spec_classes_eq_minimal_image_size`).
 -/
-import DSymVerif.Proofs.MorphismQuot5
+import DSymVerif.Proofs.MorphismSpecC
 import DSymVerif.Props.C03
 
 namespace DSymVerif.C04
-open DSymVerif DSymVerif.Mor DSymVerif.DS DSymVerif.DS.CanonP
+open DSymVerif DSymVerif.Mor DSymVerif.DS DSymVerif.DS.CanonP DSymVerif.SpecC04P
 
 /-! ## 0. the hypotheses are those of the model's D-symbols; example instances -/
 
@@ -322,6 +324,43 @@ theorem valid_hypotheses (ds : DSymData) (h : ValidSym ds) :
 example : ValidSym C03.ex1 ∧ C03.ex1.view.isConnected = true :=
   ⟨C03.ex1_valid, (C03.conn_iff_isConnected C03.ex1_valid.set).1 C03.ex1_conn⟩
 
+/-- the exactness of the automorphism list, for a valid symbol that `is_connected()` -/
+theorem automorphisms_eq_sym (ds : DSymData) (hs : ValidSym ds) (hsz : 1 ≤ ds.size)
+    (hconn : ds.view.isConnected = true) :
+    ∃ L, automorphisms (ofSym ds) = .ok L ∧
+      (∀ f, f ∈ L → f.size = ds.size + 1 ∧ InRange (ofSym ds) (ofSym ds) (gv f) ∧
+        IsMor (ofSym ds) (ofSym ds) (gv f) ∧
+        (∀ x y, 1 ≤ x → x ≤ ds.size → 1 ≤ y → y ≤ ds.size → gv f x = gv f y → x = y) ∧
+        (∀ d, 1 ≤ d → d ≤ ds.size → ∃ x, 1 ≤ x ∧ x ≤ ds.size ∧ gv f x = d)) ∧
+      (∀ g, IsMor (ofSym ds) (ofSym ds) g → InRange (ofSym ds) (ofSym ds) g →
+        ∃ f, f ∈ L ∧ ∀ d, 1 ≤ d → d ≤ ds.size → gv f d = g d) ∧
+      (L.map (fun f => gv f 1)).Sublist (ofSym ds).elements := by
+  obtain ⟨hR, _, hC, hI⟩ := ofSym_validSet ds hs.set
+  exact automorphisms_eq (ofSym ds) hR hC hI ((Mor.connected_iff_isConnected ds hs.set).2 hconn) hsz
+
+example := automorphisms_eq_sym C03.ex1 C03.ex1_valid (by decide)
+  ((C03.conn_iff_isConnected C03.ex1_valid.set).1 C03.ex1_conn)
+
+/-- morphism search between valid symbols of one dimension, source `is_connected()`: `Some` exactly
+    when a morphism with the requested base image exists, `None` otherwise -/
+theorem morphism_some_iff_sym (a b : DSymData) (ha : ValidSym a) (hb : ValidSym b) (hsa : 1 ≤ a.size)
+    (hd : b.dim = a.dim) (hconn : a.view.isConnected = true) (e : Nat) (he1 : 1 ≤ e) (he2 : e ≤ b.size) :
+    ((∃ f, morphism (ofSym a) (ofSym b) e = .ok f) ↔
+      ∃ g, IsMor (ofSym a) (ofSym b) g ∧ InRange (ofSym a) (ofSym b) g ∧ g 1 = e) ∧
+    (morphism (ofSym a) (ofSym b) e = .err ↔
+      ¬ ∃ g, IsMor (ofSym a) (ofSym b) g ∧ InRange (ofSym a) (ofSym b) g ∧ g 1 = e) := by
+  obtain ⟨hRa, _, _, _⟩ := ofSym_validSet a ha.set
+  obtain ⟨_, hPb, hCb, _⟩ := ofSym_validSet b hb.set
+  have hCb' : Complete (ofSym b) (ofSym a).dim := by
+    have : (ofSym a).dim = (ofSym b).dim := hd.symm
+    rw [this]; exact hCb
+  have hc := (Mor.connected_iff_isConnected a ha.set).2 hconn
+  exact ⟨morphism_some_iff (ofSym a) (ofSym b) hRa hPb hCb' hc hsa e he1 he2,
+    morphism_none_iff (ofSym a) (ofSym b) hRa hPb hCb' hc hsa e he1 he2⟩
+
+example := morphism_some_iff_sym C03.ex1 C03.ex1 C03.ex1_valid C03.ex1_valid (by decide) rfl
+  ((C03.conn_iff_isConnected C03.ex1_valid.set).1 C03.ex1_conn) 1 (by decide) (by decide)
+
 /-! ## 8. the property for `minimal_image` -/
 
 /-- **minimal_image_spec — "The minimal image of a connected D-symbol is a symbol onto which the
@@ -436,5 +475,59 @@ theorem cover_invariance_cover (s cv : DSymData) (n : Nat) (σ : Nat → Nat →
       _ ≤ n * s.size := Nat.mul_le_mul_right _ hn
   exact cover_invariance cv s (cproj s.size) hcvv hs hcsz (by rw [← hm.dim]; exact hdim) hsz hm.dim
     hcc hcs hmm hmr hsurj
+
+/-! ## 9. the Spec's oracle is the same number -/
+
+/-- **spec_refinement_correct**: the Spec's Moore-style partition refinement (Spec/C04.lean
+    `coarsest`: start from the classes of equal degree tuples, split by the classes of the operation
+    images until the number of classes stops growing) returns the COARSEST partition of 1..size
+    that respects the degree tuples and is closed under the operations (`SCong`); its labels are
+    class minima, and `classes s` counts them -/
+theorem spec_refinement_correct (s : SpecC04.S) (hv : s.valid = true) :
+    SCong s (fun d => (SpecC04.coarsest s).getD d 0) ∧
+    (∀ c : Nat → Nat, SCong s c → ∀ d d', 1 ≤ d → d ≤ s.size → 1 ≤ d' → d' ≤ s.size →
+      c d = c d' → (SpecC04.coarsest s).getD d 0 = (SpecC04.coarsest s).getD d' 0) ∧
+    Canon s.size (fun d => (SpecC04.coarsest s).getD d 0) ∧
+    SpecC04.classes s = (reps s.size (fun d => (SpecC04.coarsest s).getD d 0)).card :=
+  coarsest_spec s (opsInRange_of_valid s hv)
+
+/-- Spec tables for the one-chamber symbol of dimension 2 with v = 3, 3 (non-vacuity) -/
+def specOne : SpecC04.S :=
+  { size := 1, dim := 2, op := fun i d => if i ≤ 2 ∧ d = 1 then 1 else 0,
+    v := fun i d => if i < 2 ∧ d = 1 then 3 else 0 }
+
+example : specOne.valid = true ∧ SpecC04.classes specOne = 1 := by decide
+
+/-- … and it is the number the theorems speak about: for Spec tables that describe a valid connected
+    symbol `ds` (same operations, same degrees), `classes s` is the number of chambers of
+    `minimal_image(ds)` — the Spec clause `result-size-eq-number-of-coarsest-congruence-classes`
+    and `minimal_image_spec` agree -/
+theorem spec_classes_eq_minimal_image_size (s : SpecC04.S) (ds : DSymData) (h : SpecAgrees s ds)
+    (hs : ValidSym ds) (hsz : 1 ≤ ds.size) (hdim : 1 ≤ ds.dim) (hconn : ds.view.isConnected = true) :
+    ∃ c, minimalImage ds = .ok c ∧ SpecC04.classes s = c.size :=
+  classes_eq_size s ds h hs hsz hdim ((Mor.connected_iff_isConnected ds hs.set).2 hconn)
+
+/-- the Spec's degree `orbitLen · v` is the model's `m(i,i+1,·)` whenever the Spec tables carry the
+    stored operations and branching numbers -/
+theorem spec_degree_is_model_degree (s : SpecC04.S) (ds : DSymData) (hv : ValidTables ds)
+    (hsize : s.size = ds.size) (hdim : s.dim = ds.dim)
+    (hop : ∀ i d, i ≤ ds.dim → 1 ≤ d → d ≤ ds.size → s.op i d = ds.dset.opU i d)
+    (hvv : ∀ i d, i < ds.dim → 1 ≤ d → d ≤ ds.size → s.v i d = ds.orbitVs.getD (ds.ixAt i d) 0) :
+    SpecAgrees s ds :=
+  specAgrees_of_tables s ds hv hsize hdim hop hvv
+
+/-- Spec tables of `C03.ex1` (one chamber, branching numbers as stored) -/
+def specEx1 : SpecC04.S :=
+  { size := 1, dim := 2, op := fun i d => C03.ex1.dset.opU i d,
+    v := fun i d => C03.ex1.orbitVs.getD (C03.ex1.ixAt i d) 0 }
+
+example : SpecAgrees specEx1 C03.ex1 :=
+  spec_degree_is_model_degree specEx1 C03.ex1 C03.ex1_valid.toValidTables rfl rfl
+    (fun _ _ _ _ _ => rfl) (fun _ _ _ _ _ => rfl)
+
+example := spec_classes_eq_minimal_image_size specEx1 C03.ex1
+  (spec_degree_is_model_degree specEx1 C03.ex1 C03.ex1_valid.toValidTables rfl rfl
+    (fun _ _ _ _ _ => rfl) (fun _ _ _ _ _ => rfl))
+  C03.ex1_valid (by decide) (by decide) ((C03.conn_iff_isConnected C03.ex1_valid.set).1 C03.ex1_conn)
 
 end DSymVerif.C04
